@@ -125,6 +125,11 @@ def build(c):
     w.signer_version = tuple(c["signer_version"])
     w.retries = c["retries"]
     w.echo_ok = c["echo_ok"]
+    if not c["echo_ok"]:
+        # the ways an echo can be wrong, spread over the grid
+        k = (c["retries"] + sum(c["ui_version"]) + sum(c["signer_version"]) +
+             PLATFORMS.index(c["platform"]) + POST.index(c["post_mode"])) % 4
+        w.echo_ok = [False, "hdr-cmd", "hdr-cla", "short"][k]
     w.unlock_ok = c["unlock_ok"]
     w.post_mode = c["post_mode"]
     w.pin = PIN
@@ -198,6 +203,7 @@ def run_case(c):
         raise Violation("served-without-unlock", repr(desc))
     boundary = c["ui_version"] in BOUNDARY_V[1:] or c["signer_version"] in BOUNDARY_V[1:]
     labels = ["out:" + out, "platform:" + c["platform"], "mode:%s" % c["mode"],
+              "echo:%s" % w.echo_ok,
               "unlocks:%d" % unlocks, "change:%s" % c.get("change", c["needs_change"])]
     if serves:
         labels.append("serves")
@@ -341,7 +347,8 @@ def run_server(c):
 REQUIRED_LABELS = {t: ["change:%s" % x for x in CHANGES] + ["out:serve", "out:error", "out:interrupt", "platform:Ledger",
                        "platform:SGX", "platform:TCP", "unlocks:0", "unlocks:1", "serves",
                        "server:answered", "server:silent", "fault-at-unlock", "fault-out:stop",
-                       "fault-platform:SGX", "fault-platform:Ledger"] for t in ("quick", "thorough")}
+                       "fault-platform:SGX", "fault-platform:Ledger", "echo:hdr-cmd",
+                       "echo:hdr-cla", "echo:short", "echo:False", "echo:True"] for t in ("quick", "thorough")}
 
 
 def stages(tier):
